@@ -4,6 +4,7 @@ mod case;
 mod corpus;
 mod driver;
 mod engine;
+mod engine_cli;
 mod engine_fsfault;
 mod gen_project;
 mod job;
